@@ -642,9 +642,9 @@ def malformed(ctx):
     from taurex.chemistry import TaurexChemistry
     rng = ctx.rng
     quiet()
-    for k in range(ctx.n(24, 240)):
+    for k in range(ctx.n(28, 280)):
         c = gen_case(rng, 0)
-        r = k % 6
+        r = k % 7
         tag = ''
         try:
             install(c['registered'], None)
@@ -677,6 +677,15 @@ def malformed(ctx):
                 ch.addGas(make_gas(dict(mol='CH4', kind='constant', mix_ratio=-1e-3)))
                 ch.initialize_chemistry(n, None, P, None)
                 out = 'accepted'
+            elif r == 6:
+                tag = 'twopoint-nonmonotone-pressure'
+                n = max(c['nlayers'], 4)
+                P = 10 ** rng.uniform(-3, 6, size=n)
+                g = make_gas(dict(mol='CH4', kind='twopoint', mix_ratio_surface=1e-4, mix_ratio_top=1e-8))
+                g.initialize_profile(n, None, P, None)
+                mp = np.asarray(g.mixProfile)
+                out = 'in-range' if (mp.min() >= 1e-8 * (1 - 1e-9) and mp.max() <= 1e-4 * (1 + 1e-9)) else \
+                    'out-of-range'
             else:
                 tag = 'power-unknown-molecule'
                 n = c['nlayers']
